@@ -4,7 +4,8 @@ P=$1; PROP=$2; TIER=${3:-quick}
 WT=/tmp/wt/dbg-$$; VC=/tmp/verif-dbg-$$
 trap 'git -C /repo worktree remove --force $WT 2>/dev/null; rm -rf $VC $WT; git -C /repo worktree prune' EXIT
 git -C /repo worktree add -f --detach $WT HEAD >/dev/null 2>&1
-(cd $WT && git apply $P)
+P=$(readlink -f "$P")
+(cd $WT && git apply "$P") || { echo "patch does not apply: $P"; exit 3; }
 rsync -a --delete --exclude .git /verif/ $VC/
 (cd $VC && NADA_REPO=$WT ./check $PROP --tier $TIER; echo "rc=$?"; python3 - <<PY
 import json
